@@ -75,10 +75,14 @@ def to_classes(spec: dict) -> list[dict]:
                 flags["compare"] = False
             if f.get("kw_only"):
                 flags["kw_only"] = True
+            if f.get("nohash"):
+                flags["hash"] = False  # (an explicit hash=False says nothing about comparison)
             fields.append({"name": f["name"], "ann": ann_of(kind), "default": default, "flags": flags, "kind": kind})
         bases = [f"C{j}" for j in c["bases"]] if c.get("bases") else None
         cd = {"name": f"C{i}", "base": f"C{i - 1}" if i else None, "bases": bases, "fields": fields,
               "kw_only": c.get("kw_only", False)}
+        if i == 0 and c.get("plain_mixin") and not c.get("mixin") and fields:
+            cd["plain_mixin_names"] = [fields[k % len(fields)]["name"] for k in c["plain_mixin"]]
         if i == 0 and c.get("mixin"):
             cd["mixin_fields"] = [{"name": n, "ann": ann_of(kd), "default": PROP_KINDS[kd][1], "flags": {}, "kind": kd}
                                   for n, kd in c["mixin"]]
@@ -378,8 +382,9 @@ def st_hierarchy(ctx: Ctx):
     flags = st.sampled_from([(True, True), (True, True), (False, True), (True, False), (False, False), (False, False)])
 
     def field(name):
-        return st.tuples(kinds, flags, st.booleans()).map(
-            lambda t: {"name": name, "kind": t[0], "init": t[1][0], "compare": t[1][1], "kw_only": t[2] and t[1][0]})
+        return st.tuples(kinds, flags, st.booleans(), st.sampled_from([False, False, False, True])).map(
+            lambda t: {"name": name, "kind": t[0], "init": t[1][0], "compare": t[1][1], "kw_only": t[2] and t[1][0],
+                       "nohash": t[3]})
 
     names = ["a", "b", "c", "d", "e", "f", "zz", "Ab", "_raw", "_", "o", "i", "self", "node", "non_compare", "non_init", "A1"]  # (underscore-prefixed names are fields like any other)
 
@@ -413,6 +418,8 @@ def st_hierarchy(ctx: Ctx):
             d["levels"][k % len(d["levels"])]["redeclare_origin"] = True
         if mix and not d["levels"][0].get("bases"):
             d["levels"][0]["mixin"] = mix
+        elif mix is None and k is not None and k % 2 and not d["levels"][0].get("bases"):
+            d["levels"][0]["plain_mixin"] = [k, k + 1]
         return d
 
     mixin = st.one_of(st.none(), st.none(), st.none(),
